@@ -54,3 +54,10 @@ Definition known_C11 (c : c11case) : list Z :=
 
 Definition eval_C11 (c : c11case) (obs : list Z) : list Z :=
   [zb (zlist_eqb (run_C11 c) obs); zb (spec_C11 c obs)] ++ known_C11 c.
+
+(* the model with the tombstone lookup of requests/C11-fix-1.diff: what [run_C11] becomes once the
+   repair is applied (used to validate the patch against a patched copy of the code) *)
+Definition run_C11_fixed (c : c11case) : list Z := run_obs true (init_sys (c11_n c)) (c11_ops c).
+Definition eval_C11_fixed (c : c11case) (obs : list Z) : list Z :=
+  [zb (zlist_eqb (run_C11_fixed c) obs); zb (spec_C11 c obs)] ++
+  (if ev_collapse (run_events true (init_sys (c11_n c)) (c11_ops c)) then [3] else []).
